@@ -321,6 +321,9 @@ type ScenarioOpts struct {
 }
 
 // genScenarios produces one base scenario and its history states, all against the same schema.
+// schemaHook, when set, sees every generated schema (dependency-key cases, see depKeyCases)
+var schemaHook func(sch *schema.BodySchema)
+
 func genScenarios(r *rand.Rand, o ScenarioOpts) []*Scenario {
 	var sch *schema.BodySchema
 	for i := 0; i < 50; i++ {
@@ -339,6 +342,9 @@ func genScenarios(r *rand.Rand, o ScenarioOpts) []*Scenario {
 	}
 	if o.Gen.DynFocus {
 		sch = dynFocusSchema(r)
+	}
+	if schemaHook != nil {
+		schemaHook(sch)
 	}
 	funcs := genFunctions(r)
 	src, decls := genConfig(r, sch, o.Inject)
